@@ -217,6 +217,22 @@ class Ctx:
         log('[%s] correspondence break (%s): case=%s impl=%s model=%s %s' % (
             self.pid, obligation, _short(case), _short(impl), _short(model), detail))
 
+    def guard(self, case, obligation='implementation-behaviour-interpretable-by-the-harness'):
+        """with ctx.guard(case): …  — an unexpected exception while judging one case (the implementation did
+        something the harness has no reading for) is a broken tie for that case, not a crash of the check"""
+        ctx = self
+
+        class _G:
+            def __enter__(self_):
+                return self_
+
+            def __exit__(self_, et, ev, tb):
+                if et is None or issubclass(et, (InfraError, KeyboardInterrupt, SystemExit, subprocess.TimeoutExpired)):
+                    return False
+                ctx.disagree(obligation, case, 'exception while judging the case', ''.join(traceback.format_exception(et, ev, tb))[-1500:])
+                return True
+        return _G()
+
     def fail(self, sig, what, case, **kw):
         """the property oracle fails on the implementation for a concrete input"""
         self.failures.append(dict(sig=sig, what=what, case=case, **kw))
@@ -291,8 +307,11 @@ def main(prop, argv=None):
         log('[%s] TIMEOUT: %s' % (pid, e))
         sys.exit(2)
     except Exception:
-        log('[%s] INFRASTRUCTURE FAILURE (harness exception):\n%s' % (pid, traceback.format_exc()))
-        sys.exit(2)
+        # the implementation did something the harness has no reading for: the tie between model and code
+        # is broken for this run (not an infrastructure failure: those are InfraError / timeouts above)
+        tb = traceback.format_exc()
+        log('[%s] harness exception while exercising the implementation:\n%s' % (pid, tb))
+        ctx.disagree('implementation-behaviour-interpretable-by-the-harness', 'whole run', 'exception', tb[-1500:])
 
     # ---- decide -------------------------------------------------------------
     findings = load_findings(pid)
